@@ -25,10 +25,12 @@ def cases(tier, seed):
             # classification sub-workload
             tn = rng.choice([None, 1e-3, 0.1, 0.0])  # (0: identical repeats do not differ by MORE than 0)
             tol = 2.220446049250313e-19 if tn is None else float(tn)
-            cls = str(rng.choice(["zero", "half", "double", "big", "equal", "ulp", "ulp"]))
+            cls = str(rng.choice(["zero", "half", "double", "big", "equal", "ulp", "ulp", "ulp0"]))
             if cls == "equal":
                 tn, tol = 0.125, 0.125  # exactly representable: |y1-y2| == tol_noise is NOT 'more than'
-            diff = {"zero": 0.0, "half": 0.5 * tol, "double": 2.0 * tol, "big": 1.0, "equal": tol, "ulp": "ulp"}[cls]
+            if cls == "ulp0":
+                tn, tol = 0.0, 0.0  # tol_noise = 0: ANY variability counts, also one ulp of a tiny value (far below eps * tol_fun)
+            diff = {"zero": 0.0, "half": 0.5 * tol, "double": 2.0 * tol, "big": 1.0, "equal": tol, "ulp": "ulp", "ulp0": "ulp"}[cls]
             opts = {} if tn is None else {"tol_noise": float(tn)}
             if cls == "ulp":
                 # the repeat differs by ONE unit in the last place of the value: far above the default tol_noise
@@ -37,9 +39,11 @@ def cases(tier, seed):
                 opts = {} if rng.random() < 0.6 else {"tol_fun": float(rng.choice([1e-6, 0.1, 1.0]))}
                 tol = 2.220446049250313e-16 * float(opts.get("tol_fun", 1e-3))
             spec = gen.make_spec(rng, D=D, geom=str(rng.choice(["lin", "log", "unb"])), x0mode=str(rng.choice(["in", "none"])),
-                                 land=("const" if cls == "equal" else str(rng.choice(["quad", "sphere", "l1"]))), where="in", mode="det", options=opts, max_fun_evals=45)
+                                 land=("const" if cls in ("equal", "ulp0") else str(rng.choice(["quad", "sphere", "l1"]))), where="in", mode="det", options=opts, max_fun_evals=45)
             if cls == "equal":
                 spec["target"]["value"] = 1.0
+            if cls == "ulp0":
+                spec["target"]["value"] = float(rng.choice([1e-6, 3e-5, 1e-9]))  # one ulp of it is 2e-22 .. 7e-21
             out.append({"spec": spec, "jitter": {"diff": diff, "cls": cls, "tol": tol}})
             continue
         mode = str(rng.choice(["auto", "declared", "declared+size", "he"], p=[0.25, 0.2, 0.15, 0.4]))
@@ -100,7 +104,7 @@ def summarize(records, tier, seed):
             nt.add((s["noise"]["mode"], s["options"].get("noise_final_samples"), s["D"], s["geom"], int(np.floor(np.log10(max(s["noise"]["sigma"], 1e-12))))))
     cnt = C.count_sum(records, "C05.")
     extra = {"events_checked": cnt, "status": C.status_hist(records),
-             "classification_cases": {c: sum(1 for r in records if (r.get("jitter") or {}).get("cls") == c) for c in ("zero", "half", "double", "big", "equal", "ulp")},
+             "classification_cases": {c: sum(1 for r in records if (r.get("jitter") or {}).get("cls") == c) for c in ("zero", "half", "double", "big", "equal", "ulp", "ulp0")},
              "classified_stochastic": sum(1 for r in records if r.get("jitter") and str(r.get("target_type", "")).startswith("stochastic")),
              "runs_with_final_sampling": sum(1 for r in records if (r.get("n_final") or 0) >= 1),
              "aborts_by_other_defects": C.other_property_aborts(records, "C05")}
